@@ -15,6 +15,8 @@ struct C01Call
   int inner_api, inner_itype, inner_block;
   int from_task;       // 1: the call is made from inside an outer parallel loop body of size from_task_n
   int from_task_n;
+  int prefill_block;   // 1: first occupy every worker thread with a long-running scheduled closure
+  int prefill;         // fire-and-forget closures scheduled right before the call (fills the caller's task pipe)
 };
 struct C01Plan
 {
@@ -32,5 +34,9 @@ int c01_body(int h, long long idx);
 int c01_block(int h, long long begin, long long end);
 void c01_body_exit(int h);
 void c01_slot_check(int h, long long idx, int value);
+void c01_prefill_ran(void);
+void c01_blocker(void);
+void c01_wait_blockers(int n);
+void c01_release_blockers(void);
 void c01_run();
 }
